@@ -36,7 +36,11 @@ def run(ctx):
                 "FriOptions::num_fri_layers, the well-formedness predicate) on boundary sweeps + random; and the extracted algebraic model over Z/p (deep_poly, "
                 "degree_of, segment, evals, v_deep) vs the real DeepCompositionPoly (add_trace_polys/add_composition_poly/degree/evaluate), CompositionPoly::new/"
                 "evaluate_at and the verifier's DeepComposer (compose_trace_columns/compose_constraint_evaluations/combine_compositions), whose sources are "
-                "compiled into the harness from /repo, on random / constant / low-degree / zero trace polynomials over f64, f62, f128; distinct = distinct case lines")
+                "compiled into the harness from /repo, on random / constant / low-degree / zero trace polynomials over f64, f62, f128; "
+                "alg:deeplag: the same two composers WITH a Lagrange-kernel column (add_aux_segment(.., Some(idx)), cc.lagrange, Lagrange OOD frame) vs deep_trace + deep_lag / "
+                "v_trace_lag / lag_frame of Model/StarkLagrange.v (interp_pts = C20's polynom::interpolate) for n in {8,16,64}, base fields and quadratic extensions of f64 / f62, honest / "
+                "arbitrary / low-degree kernel polynomials; shape:lagrange: ctx_model + the guards of prove_lag / verify_lag (lag_new, lag_eval defined on a frame of log2(n)+1 entries, "
+                "log2(n)+1 < n) vs the real constructors with Some(lagrange idx), the real LagrangeKernelEvaluationFrame and the outcome of proving + verifying the member; distinct = distinct case lines")
     ctx.assumptions += [
         "z (the out-of-domain point) lies outside the trace domain and the LDE coset, and z*g too (probability <= 2^-30 per proof; protocol-inherent, an assumption of C01_stark_complete_partial, not searched for)",
         "no coin draw exhausts its documented limit of 1000 rejection-sampling attempts (outside the claim by the property text)",
@@ -44,7 +48,7 @@ def run(ctx):
         "the Coq closure of Props/C01.v now includes other workers' files (Props/C04, C09, C10, C15, C16 and their Proofs): a change that breaks them breaks this check's coq build obligation",
         "the coin values are an arbitrary function `sem` of the labelled symbolic challenge list of Model/Transcript.v (the same function on both sides): that the real DefaultRandomCoin is such a function (deterministic in the absorbed history and the draw index) is C19_coin_deterministic",
         "the algebraic model (Model/Stark.v part 2): its DEEP composition / composition-column segmentation / verifier recomputation are run against the real composer code (correspondence alg:deep, base fields only); the remaining glue of prove/verify (order of stages, transcript, Merkle, FRI) is tied by reading and by the end-to-end falsifier only",
-        "Lagrange-kernel auxiliary columns: Coq model Model/StarkLagrange.v with the PARTIAL capstone C01_stark_complete_lagrange_partial (stage premises not instantiated; its DEEP/prove/verify definitions tied to the code by reading only, the Lagrange constraint part through C16/C17); the GKR step is user code: assumption that prover and verifier obtain the same Lagrange random elements; the falsifier covers Lagrange members end to end (mini family LagAir and the wrapper family XAir of harness/src/bin/c01.rs, both profiles)",
+        "Lagrange-kernel auxiliary columns: Coq model Model/StarkLagrange.v with the capstone C01_stark_complete_lagrange (all stages instantiated as in C01_stark_complete, point interpolation = C20's polynom::interpolate); its DEEP term / verifier recomputation / OOD frame are run against the real composers (corr alg:deeplag), the Lagrange constraint part is C16's model (tied by C16/C17), the guards of prove_lag / verify_lag are compared with real runs (corr shape:lagrange), the remaining glue by reading and the end-to-end falsifier; the GKR step is user code: assumption that prover and verifier obtain the same Lagrange random elements; the falsifier covers Lagrange members end to end (mini family LagAir and the wrapper family XAir of harness/src/bin/c01.rs, both profiles)",
         "debug profile: the prover's #[cfg(debug_assertions)] validate_transition_degrees (declared vs actual constraint degrees, smallest evaluation domain) panics on valid traces of the supported class (degenerate columns; and the degree-exact corners n=8/degree 5 + cycle-2 column/blowup 8, n=16/degree 9 + cycle-2 column/blowup 16, n=8/degree 10/blowup 16): the property names no build profile, so this is recorded as the OPEN finding F-C01-debug-degree-diagnostics (coordinator's decision; not repaired: a patch would remove or weaken a maintainers' diagnostic), reproduced on every run by pinned cases and matched ONLY where the check's reference computation of the actual degrees predicts exactly that assertion; the same members are proved in release; every other debug outcome, in particular a panic of Trace::validate on a valid trace, is a violation",
         "extension fields: the algebraic theorems hold for every FOps with FLaws (hence for the extensions once C08 provides their FLaws); E::from(B) embeddings are not modelled separately",
     ]
@@ -79,6 +83,32 @@ def run(ctx):
             ctx.ob("harness-run:deep", False, out[-300:])
         else:
             ctx.correspondence("alg:deep", lines, drv, timeout=3000)
+        # round "Lagrange in the model": (i) the DEEP term of the kernel column — the REAL add_trace_polys with a kernel polynomial
+        # (add_aux_segment(.., Some(idx)), cc.lagrange) and the REAL compose_trace_columns with a Lagrange frame against deep_trace + deep_lag /
+        # v_trace_lag of Model/StarkLagrange.v over Z/p and the quadratic extensions (interp_pts = C20's interpolate); (ii) the shape
+        # predicates / guards of prove_lag / verify_lag on Lagrange members the falsifier proves (verdict granularity)
+        nl = 60 if quick else 1200
+        rc, out, _ = vcheck.sh([hb, "corr", str(ctx.seed), str(nl), "deeplag"], timeout=900)
+        lines = out.split("\n")
+        if rc != 0 or not any(" => " in l for l in lines):
+            ctx.ob("harness-run:deeplag", False, out[-300:])
+        else:
+            ctx.correspondence("alg:deeplag", lines, drv, timeout=3000, shards=8)
+            seen = set()
+            for l in lines:
+                t = l.split(" ")
+                if len(t) > 4 and t[0] == "deeplag" and " => panic" not in l:
+                    seen.add((int(t[3]), int(t[2])))            # (trace length, extension degree)
+            want = {(nn, e) for nn in (8, 16, 64) for e in (1, 2)}
+            ctx.ob("corr-lagrange-deep-sampled", want <= seen, "missing (n, extension degree): " + str(sorted(want - seen)))
+            ctx.notes.setdefault("correspondence", {}).setdefault("alg:deeplag", {})["sampled (n, ext)"] = sorted(seen)
+        ns = 40 if quick else 600
+        rc, out, _ = vcheck.sh([hb, "corr", str(ctx.seed), str(ns), "lagshape"], timeout=900)
+        lines = out.split("\n")
+        if rc != 0 or not any(" => " in l for l in lines):
+            ctx.ob("harness-run:lagshape", False, out[-300:])
+        else:
+            ctx.correspondence("shape:lagrange", lines, drv, timeout=1200)
     if hb:
         budget = (4000 if quick else 80000) * (3 if ctx.broken() else 1)
         cmd = [hb, "falsify", str(ctx.seed), str(budget)] + ([] if quick else ["thorough"])
@@ -173,7 +203,8 @@ def run(ctx):
         "stage premise of C01_stark_complete_generic_fri (arbitrary FRI stage)": ["fri_complete"],
         "other premises of C01_stark_complete": ["shape facts", "root-of-unity / twiddle facts of the field", "trace validity", "z outside domains, z and z*g non-zero, query points distinct LDE points (assumptions)"],
         "Lagrange round (Model/StarkLagrange.v)": ["lagrange_honest_numer_vanishes / _first_cell / _term_is_poly (row-to-point, from C16)", "lagrange_deep_term",
-                                                    "stark_complete_lagrange_partial (stage premises: merkle_complete, fri_complete, interp_complete, coset_off_domain, interp_pts_spec; correspondence of the new model pending)"],
+                                                    "stark_complete_lagrange_partial (stage premises: merkle_complete, fri_complete, interp_complete, coset_off_domain, interp_pts_spec)",
+                                                    "stark_complete_lagrange (ALL stages instantiated: C10, C09, C15, C04, C20 interpolate; no stage premise)", "interp_pts_inst (from C20_interpolate_spec)"],
         "not modelled": ["serialisation round trip (C12; falsifier only)", "coin retry limit (C19; outside the claim)", "the user's GKR prover/verifier (assumption: same Lagrange random elements on both sides)"],
     }
     ctx.trusted.insert(0, "Coq 8.16.1 kernel + vm_compute (no native_compute); Print Assumptions under every theorem")
